@@ -92,6 +92,8 @@ def run(ctx):
     wr, wsum = wakefam.run(ctx, "rpc")
     states += wr.distinct
     trans += wr.generated
+    wr2, wsum2 = wakefam.run(ctx, "rpcserver")      # the handler's side: messages streamed by the caller
+    wsum["schedules"] += wsum2["schedules"]
     ctx.coverage = {
         "wake_schedules_replayed": wsum["schedules"],
         "states": states, "transitions": trans, "traces_validated_against_impl": calls, "samples": samples, "events": events,
